@@ -50,6 +50,13 @@ func (vc *VC) Run() {
 			o.Expect = "sat"
 		}
 		vc.tokEntry(st)
+		if vc.fc.Flags["no-blocking-under-lock"] {
+			// locks held by callers are not tracked: none is held by this function when it starts
+			vc.heapKeySort("#held", types.Typ[types.Bool])
+			h := vc.heapGet(st, "#held", types.Typ[types.Bool])
+			vc.assumeNote("mutexes held by callers are not tracked (only those the function itself takes)")
+			vc.addFact("assume", fmt.Sprintf("(forall ((l!h Loc)) (! (not (select %s l!h)) :pattern ((select %s l!h))))", h, h))
+		}
 		vc.applyHints(-1, "", env)
 		// ghost instrumentation executed at entry: the ghost variables named in the
 		// function's modifies clause take the values given by its ghostdef clauses
@@ -362,7 +369,10 @@ func (vc *VC) loopMods(li *loopInfo) {
 					li.mods["#fifo.sendn"] = true
 				}
 			case *ssa.Select:
-				li.modAll = true
+				// a select with a default case never waits: it is no scheduling point of the sequential model
+				if x.Blocking {
+					li.modAll = true
+				}
 				for _, s := range x.States {
 					if vc.isFifoChan(s.Chan) {
 						vc.fifoFn()
